@@ -229,6 +229,7 @@ func checkC02(c *Ctx) {
 		r.Check(ok, "R02e", "openapiv3.processMethod declares query parameters on every path", c.P.Pos(esc),
 			"query parameters are not declared for every verb in the OpenAPI operation")
 	}
+	c02QueryWiring(c)
 }
 
 func objOf(ep *EmittedPkg, name string) *types.Func {
@@ -538,4 +539,38 @@ func binderViolationFields(c *Ctx, ep *EmittedPkg, rid string) {
 		})
 	}
 
+}
+
+// c02QueryWiring: R02h — the servers' per-method query configuration lists the
+// query-annotated fields whatever the method's (sebuf.http.config) says or omits.
+func c02QueryWiring(c *Ctx) {
+	r := c.R
+	r.Rule("R02h", "both servers list the query-annotated fields of the request for every configuration (config absent, verb only, path only, both) and verb", 12)
+	var scs []c03Scenario
+	scs = append(scs, c03Scenario{Base: "/zqb", Query: true}, c03Scenario{Query: true})
+	for _, v := range []string{"GET", "POST", "DELETE"} {
+		scs = append(scs, c03Scenario{Base: "/zqb", Cfg: &c03Cfg{Method: v}, Query: true}, c03Scenario{Base: "/zqb", Cfg: &c03Cfg{Method: v, Path: "/zqp/{id}"}, Query: true})
+	}
+	scs = append(scs, c03Scenario{Base: "/zqb", Cfg: &c03Cfg{Path: "/zqp"}, Query: true})
+	for _, s := range scs {
+		for _, g := range []struct{ name, pkg, suffix, want string }{
+			{"Go server", pkgHTTP, "_http.pb.go", `QueryName: "zqquery"`},
+			{"TS server", pkgTSServer, "_server.ts", `params.get("zqquery")`},
+		} {
+			if g.name == "TS server" && (s.Cfg == nil || (s.Cfg.Method != "GET" && s.Cfg.Method != "DELETE")) {
+				continue // body verbs: the TS server reads no query parameters at all (R02d, recorded finding)
+			}
+			txt := c.observeEmittedText(g.pkg, g.suffix, s)
+			pos := ""
+			if ri := c.c03Root(g.pkg, g.suffix); ri != nil {
+				pos = c.P.Pos(c.P.Decls[ri.Fn].Pos())
+			}
+			if txt == "" {
+				r.Unres("R02h", g.name+": "+s.String(), pos, "unit does not reconstruct for this configuration")
+				continue
+			}
+			r.Check(strings.Contains(txt, g.want), "R02h", g.name+": "+s.String(), pos,
+				fmt.Sprintf("%s: the %s generated for a request with a query-annotated field does not contain %s: the value sent in the query string never reaches the handler's request message", s, g.name, g.want))
+		}
+	}
 }
